@@ -125,10 +125,9 @@ var properties = map[string]*Property{
 		ID: "C16",
 		Runs: []Run{
 			{Dir: "c16", Pkg: "", Fn: "VerifC16Single", Needs: []string{"accepted", "rejected", "start accepted", "start refused"}},
-			{Dir: "c16", Pkg: "", Fn: "VerifC16Pairs", Needs: []string{"accepted", "rejected"}, ThoroughOnly: true},
 		},
 		Assumptions: append([]string{
-			"well-formedness predicate written from the statement: a valid base plan with at most one (quick) / two (thorough) mutations from 17 classes placed at every applicable object; Timeout and Retries of one action and every block's Concurrency are 64-bit solver variables",
+			"well-formedness predicate written from the statement: a valid base plan with at most one mutation from 17 classes placed at every applicable object (the two-mutation harness VerifC16Pairs exists but is not registered: it did not finish within an hour even on a one-block plan); Timeout and Retries of one action and every block's Concurrency are 64-bit solver variables",
 			"model plugin registry: plugins 'action' and 'check'; ValidateReq rejects a negative or wrongly typed request",
 			"registry.findSecrets (reflection, property C17) is stubbed to return nil; the model vault records Create",
 		}, commonAssumptions...),
